@@ -90,6 +90,7 @@ def run(rec, cfg):
     parsers = {True: ExpressionParser(), False: ExpressionParser()}
     parsers[False].tokenizer.exclude_padding = False
     plain_ptok = getattr(ExpressionParser.tokenize, "__vmon_original__", ExpressionParser.tokenize)
+    plain_pparse = getattr(ExpressionParser.parse, "__vmon_original__", ExpressionParser.parse)
 
     def via_parser(p, s, keep):
         try:
@@ -110,6 +111,15 @@ def run(rec, cfg):
                     via_parser(parsers[not keep], s, keep)      # again: served from the cache
             if n_s % 7 == 0:
                 via_parser(ExpressionParser(), s, False)
+            if n_s % 4 == 0:
+                # the parser's other use of the same token stream: the text is parsed (successfully or not), then
+                # tokenized again through the same parser
+                try:
+                    plain_pparse(parsers[True], s)
+                except BaseException:       # noqa: BLE001
+                    pass
+                rec.arm("tok:via-parser:after-a-parse-of-the-same-text")
+                via_parser(parsers[True], s, False)
         for a, b in zip(s, s[1:]):
             classes.add((MP.char_class(a), MP.char_class(b)))
         outs = {}
@@ -208,7 +218,12 @@ def replay(rec, cfg, w):
             pass
         p = ExpressionParser()
         p.tokenizer.exclude_padding = excl
-        for _ in (0, 1):
+        for i_ in (0, 1, 2):
+            if i_ == 2 and excl:
+                try:
+                    p.parse(w["text"])
+                except BaseException:       # noqa: BLE001
+                    pass
             try:
                 res, exc = p.tokenize(w["text"]), None
             except BaseException as e:
